@@ -1376,12 +1376,12 @@ class ExtendedZoneProcessor: public ZoneProcessor {
     }
 
     /**
-     * Normalize DateTuple::minutes if its magnitude is more than 24
-     * hours.
+     * Normalize DateTuple::minutes into [0, 24h) by carrying whole days into
+     * the date, so that DateTuples can be compared field by field.
      */
     static void normalizeDateTuple(extended::DateTuple* dt) {
       const int16_t kOneDayAsMinutes = 60 * 24;
-      if (dt->minutes <= -kOneDayAsMinutes) {
+      if (dt->minutes < 0) {
         LocalDate ld = LocalDate::forTinyComponents(
             dt->yearTiny, dt->month, dt->day);
         local_date_mutation::decrementOneDay(ld);
